@@ -287,6 +287,7 @@ class Queries:
         self.secs = 0.0
         self.timeout_ms = timeout_ms
         self.log = []          # (name, result, witness)
+        self.asked = []        # (name, result, regex) for the second-opinion obligation
 
     def empty(self, name, regex):
         """-> ('unsat', None) | ('sat', witness str) | ('unknown', None)"""
@@ -301,6 +302,7 @@ class Queries:
         self.n += 1
         w = rx.decode_z3_string(s.model()[x]) if str(r) == "sat" else None
         self.log.append((name, str(r), w))
+        self.asked.append((name, str(r), regex))
         return str(r), w
 
     def witness(self, name, regex):
